@@ -9,7 +9,7 @@ import zipfile
 
 from lxml import etree
 
-from common import EXN_CODES, OS, S, lift
+from common import EXN_CODES, Interner, OS, S, lift
 from impl_part import enc_nested
 
 PART_ORDER = ["header", "officeDocument", "footer", "footnotes", "endnotes"]
@@ -44,13 +44,14 @@ def model_case(data: bytes, html: bool, dup: bool):
     """[5, html, dup, archive]; returns (case, payloads) where payloads[id] = bytes"""
     z = zipfile.ZipFile(io.BytesIO(data))
     arch = []
+    intern = Interner()
     payloads: list[bytes] = []
     for info in z.infolist():
         raw = z.read(info)  # by ZipInfo: this very member, also for duplicate names
         member = None
         if info.filename.endswith((".xml", ".rels")):
             try:
-                member = [0, lift(etree.fromstring(raw))]
+                member = [0, lift(etree.fromstring(raw), intern)]
             except etree.XMLSyntaxError:
                 member = None
         if member is None:
